@@ -3,6 +3,8 @@ import TwistedModel.Haproxy.Wrapper
 Driver glue for C47.  Bytes on the wire: lower-case hex, `-` = empty.
   `C47 run <chunk>;<chunk>;…`  (`none` = no delivery at all) →
         `closed=<0|1> hdr=<0|1> peer=<addr> host=<addr> app=<hex> seen=1`
+  `C47 conns <n> <i>:<chunk>;<i>:<chunk>;…` (`none` = no event): `n` connections of ONE factory, the events in
+        delivery order → the `run` lines of connections 0..n-1 joined by ` | `
   `C47 v1parse <line>` / `C47 v2parse <line>` → `ok real` | `ok <addr> <addr>` | `!raised <ExceptionClass>`
   `<addr>` = `real` | `TCP4:<host text hex>:<port>` (TCP/UDP, 4/6) | `UNIX:<name hex>`
 -/
@@ -50,8 +52,29 @@ def showParse : Except Err Info → String
   | .error .missing => "!raised MissingAddressData"
   | .error .typeError => "!raised TypeError"
 
+/-- `<i>:<hex>` = one `dataReceived` on connection `i` -/
+def decEvent (s : String) : Option (Nat × Bytes) :=
+  match s.splitOn ":" with
+  | [i, h] => do
+    let n ← i.toNat?
+    let b ← decHex h
+    pure (n, b)
+  | _ => none
+
+def showConns (n : Nat) (evs : List (Nat × Bytes)) : String :=
+  if evs.all (fun e => e.1 < n) then
+    " | ".intercalate ((List.range n).map fun i => showState (runSched inetOk evs i))
+  else "bad-op"
+
 def handle (args : List String) : String :=
   match args with
+  | ["conns", n, "none"] => match n.toNat? with
+    | some n => showConns n []
+    | none => "bad-op"
+  | ["conns", n, evs] =>
+    match n.toNat?, (evs.splitOn ";").mapM decEvent with
+    | some n, some es => showConns n es
+    | _, _ => "bad-op"
   | ["run", "none"] => showState (run inetOk [])
   | ["run", cs] =>
     match (cs.splitOn ";").mapM decHex with
